@@ -179,6 +179,10 @@ def eval_grid(F, diagonal, res: Result, methods=METHODS, pairs=None, fev=None):
         if a != b and abs(dat['weight'] - 0.5 * (E[a] + E[b])) > 1e-12:
             res.violation('graph-edge-weight-not-mean-of-endpoints', case0, f'edge {a}-{b} weight={dat["weight"]}')
             break
+        own_exp = pathref.edge_cost(E, a, b, 'exp', THR) if a != b else None
+        if a != b and abs(dat['weight_exp'] - own_exp) > 1e-9 * max(1.0, own_exp):
+            res.violation('graph-exponential-weight-not-capped-exp-of-mean', case0, f'edge {a}-{b} weight_exp={dat["weight_exp"]} expected {own_exp}')
+            break
     nodes = sorted(E)
     if pairs is None:
         pairs = [(s, t) for s in nodes for t in nodes]
